@@ -6,10 +6,14 @@
   for any predicates `T` (tree elements), `D` (everything that flows towards `adapt`), `R` (adapted output) that
   are closed under the element operations of the skeleton (`Closed`). The statement needs a STATE invariant (the
   reuse templates in `St.originals` carry whole subtrees) that holds after every outcome, errors included, because
-  the retry loop carries on after a failed element. Architecture as in `Svgdx.Proofs.Balanced` / `CtlInv`:
+  the retry loop carries on after a failed element. Since `<defaults>` is modelled the state also holds the stored
+  default elements (`Scope.defaults`): each of them is `D` (`DefsOK`), and `Closed` asks that storing a tree element
+  as a default (`storeD`) and applying stored defaults to a `D` element (`applyD`) stay inside `D`. Architecture as in `Svgdx.Proofs.Balanced` / `CtlInv`:
   one structure with a field per function of the mutual block, proved by induction on fuel.
 -/
 import Svgdx.Proofs.Balanced
+import Svgdx.Proofs.DefaultsState
+import Svgdx.Proofs.DefaultsApply
 namespace Svgdx.Ctl.Emit
 open Svgdx
 
@@ -50,7 +54,10 @@ def TagsT (ts : List Tag) : Prop := ∀ t ∈ ts, NodeT T t.node
 def OrigOK (o : List (Str × Elem × Option Nodes)) : Prop :=
   ∀ p ∈ o, D p.2.1 ∧ ∀ ks, p.2.2 = some ks → T p.2.1 ∧ NodesT T ks
 
-def SInv (st : St ρ) : Prop := OrigOK T D st.originals
+/-- the stored defaults: every one of them is `D` -/
+def DefsOK (scopes : List Scope) : Prop := ∀ s ∈ scopes, ∀ d ∈ s.defaults, D d.2
+
+def SInv (st : St ρ) : Prop := OrigOK T D st.originals ∧ DefsOK D st.scopes
 
 /-- invariant on the state whatever the outcome, postcondition on the value of a successful one -/
 def Good {α : Type} (Q : α → Prop) (x : St ρ × Except CErr α) : Prop := SInv T D x.1 ∧ OkP Q x.2
@@ -73,6 +80,10 @@ structure Closed (ev : Evalr ρ) : Prop where
     evalAttributes ev st orig.expandCompoundSize = .ok (inst1, rng) →
     T (Elem.setPositionAttrs pos (reuseInstance re inst1)) ∧
     T (Elem.setPositionAttrs pos (reuseInstance re inst1).expandCompoundPos)
+  /-- `set_element_default`: a tree element inside `<defaults>`, stored without `id` / `match` -/
+  storeD : ∀ e, T e → D (storedDefault e)
+  /-- `apply_defaults`: stored defaults applied to an element -/
+  applyD : ∀ (defs : List (ElementMatch × Elem)) e, D e → (∀ d ∈ defs, D d.2) → D (applyDefaultList defs e)
 
 end defs
 
@@ -172,8 +183,9 @@ theorem nodesT_toList : ∀ ks : Nodes, NodesT T ks → ∀ n ∈ ks.toList, Nod
 
 /-! ### the state invariant -/
 
-theorem sinv_congr {a b : St ρ} (h : b.originals = a.originals) (ha : SInv T D a) : SInv T D b := by
-  unfold SInv at *; rw [h]; exact ha
+theorem sinv_congr {a b : St ρ} (h : b.originals = a.originals) (h2 : b.scopes = a.scopes) (ha : SInv T D a) :
+    SInv T D b := by
+  unfold SInv at *; rw [h, h2]; exact ha
 
 @[simp] theorem setVar_originals (st : St ρ) (k v : Str) : (st.setVar k v).originals = st.originals := by
   unfold St.setVar; split <;> rfl
@@ -184,12 +196,105 @@ theorem foldl_setVar_originals (vars : List (Str × Str)) (st : St ρ) :
   | nil => rfl
   | cons x xs ih => rw [List.foldl_cons, ih, setVar_originals]
 
+theorem defsOK_setVar (st : St ρ) (k v : Str) (h : DefsOK D st.scopes) : DefsOK D (st.setVar k v).scopes := by
+  unfold St.setVar
+  cases hs : st.scopes with
+  | nil =>
+    intro s hs' d hd
+    simp only [List.mem_cons, List.not_mem_nil, or_false] at hs'
+    subst hs'
+    cases hd
+  | cons s0 rest =>
+    rw [hs] at h
+    intro s hs' d hd
+    rcases List.mem_cons.mp hs' with rfl | hs'
+    · exact h s0 List.mem_cons_self d hd
+    · exact h s (List.mem_cons_of_mem _ hs') d hd
+
+theorem sinv_setVar (st : St ρ) (k v : Str) (h : SInv T D st) : SInv T D (st.setVar k v) :=
+  ⟨by rw [setVar_originals]; exact h.1, defsOK_setVar st k v h.2⟩
+
+theorem sinv_foldl_setVar (vars : List (Str × Str)) (st : St ρ) (h : SInv T D st) :
+    SInv T D (vars.foldl (fun s kv => s.setVar kv.1 kv.2) st) := by
+  induction vars generalizing st with
+  | nil => exact h
+  | cons x xs ih => rw [List.foldl_cons]; exact ih _ (sinv_setVar st x.1 x.2 h)
+
+theorem updateElement_scopes' (ev : Evalr ρ) (st : St ρ) (e : Elem) : (updateElement ev st e).scopes = st.scopes := by
+  unfold updateElement; split <;> rfl
+
+theorem registerOriginal_scopes (ev : Evalr ρ) (st : St ρ) (e : Elem) (k : Option Nodes) :
+    (registerOriginal ev st e k).scopes = st.scopes := by
+  unfold registerOriginal; split <;> rfl
+
+theorem sinv_setElementDefault (st : St ρ) (e : Elem) (h : SInv T D st) (hd : D (storedDefault e)) :
+    SInv T D (st.setElementDefault e) := by
+  refine ⟨by rw [(defStep_setElementDefault st e).originals]; exact h.1, ?_⟩
+  unfold St.setElementDefault
+  cases hs : st.scopes with
+  | nil =>
+    intro s hs' d hd'
+    simp only [List.mem_cons, List.not_mem_nil, or_false] at hs'
+    subst hs'
+    simp only [List.mem_cons, List.not_mem_nil, or_false] at hd'
+    subst hd'
+    exact hd
+  | cons s0 rest =>
+    have h2 := h.2
+    rw [hs] at h2
+    intro s hs' d hd'
+    rcases List.mem_cons.mp hs' with rfl | hs'
+    · rcases List.mem_append.mp hd' with hd' | hd'
+      · exact h2 s0 List.mem_cons_self d hd'
+      · simp only [List.mem_cons, List.not_mem_nil, or_false] at hd'
+        subst hd'
+        exact hd
+    · exact h2 s (List.mem_cons_of_mem _ hs') d hd'
+
+mutual
+theorem subElemsNode_T : ∀ n : Node, NodeT T n → ∀ e ∈ subElemsNode n, T e
+  | .elem e none _ => by
+    intro h x hx
+    unfold NodeT at h
+    simp only [subElemsNode, List.mem_cons, List.not_mem_nil, or_false] at hx
+    rw [hx]; exact h
+  | .elem e (some ks) _ => by
+    intro h x hx
+    unfold NodeT at h
+    simp only [subElemsNode, List.mem_cons] at hx
+    rcases hx with rfl | hx
+    · exact h.1
+    · exact subElemsNodes_T ks h.2 x hx
+  | .comment _ _ => by intro _ x hx; simp [subElemsNode] at hx
+  | .text _ => by intro _ x hx; simp [subElemsNode] at hx
+  | .cdata _ => by intro _ x hx; simp [subElemsNode] at hx
+theorem subElemsNodes_T : ∀ ks : Nodes, NodesT T ks → ∀ e ∈ subElemsNodes ks, T e
+  | .nil => by intro _ x hx; simp [subElemsNodes] at hx
+  | .cons n r => by
+    intro h x hx
+    unfold NodesT at h
+    simp only [subElemsNodes, List.mem_append] at hx
+    rcases hx with hx | hx
+    · exact subElemsNode_T n h.1 x hx
+    · exact subElemsNodes_T r h.2 x hx
+end
+
+theorem sinv_foldl_setElementDefault (es : List Elem) (st : St ρ) (h : SInv T D st)
+    (hd : ∀ e ∈ es, D (storedDefault e)) : SInv T D (es.foldl St.setElementDefault st) := by
+  induction es generalizing st with
+  | nil => exact h
+  | cons x xs ih =>
+    rw [List.foldl_cons]
+    exact ih _ (sinv_setElementDefault st x h (hd x List.mem_cons_self)) (fun e he => hd e (List.mem_cons_of_mem _ he))
+
 theorem origOK_ite {o o' : List (Str × Elem × Option Nodes)} {c : Prop} [Decidable c] (h : OrigOK T D o)
     (h' : OrigOK T D o') : OrigOK T D (if c then o else o') := by
   split <;> assumption
 
 theorem sinv_updateElement (ev : Evalr ρ) (st : St ρ) (e : Elem) (h : SInv T D st) (hd : D e) :
     SInv T D (updateElement ev st e) := by
+  refine ⟨?_, by rw [updateElement_scopes']; exact h.2⟩
+  have h := h.1
   unfold updateElement
   split
   · exact h
@@ -202,6 +307,8 @@ theorem sinv_updateElement (ev : Evalr ρ) (st : St ρ) (e : Elem) (h : SInv T D
 
 theorem sinv_registerOriginal (ev : Evalr ρ) (st : St ρ) (e : Elem) (kids : Option Nodes) (h : SInv T D st)
     (hd : D e) (hk : ∀ ks, kids = some ks → T e ∧ NodesT T ks) : SInv T D (registerOriginal ev st e kids) := by
+  refine ⟨?_, by rw [registerOriginal_scopes]; exact h.2⟩
+  have h := h.1
   unfold registerOriginal
   split
   · exact h
@@ -212,8 +319,15 @@ theorem sinv_registerOriginal (ev : Evalr ρ) (st : St ρ) (e : Elem) (kids : Op
     · exact h p hp
 
 theorem sinv_setPrev (st : St ρ) (e : Elem) (h : SInv T D st) : SInv T D (setPrev st e) := h
-theorem sinv_push (st : St ρ) (e : Elem) (h : SInv T D st) : SInv T D (st.pushElement e) := h
-theorem sinv_pop (st : St ρ) (h : SInv T D st) : SInv T D st.popElement := h
+theorem sinv_push (st : St ρ) (e : Elem) (h : SInv T D st) : SInv T D (st.pushElement e) := by
+  refine ⟨h.1, ?_⟩
+  intro s hs d hd
+  simp only [St.pushElement, List.mem_cons] at hs
+  rcases hs with rfl | hs
+  · cases hd
+  · exact h.2 s hs d hd
+theorem sinv_pop (st : St ρ) (h : SInv T D st) : SInv T D st.popElement :=
+  ⟨h.1, fun s hs d hd => h.2 s (List.mem_of_mem_drop hs) d hd⟩
 
 theorem sinv_withRng {α : Type} (st : St ρ) (r : Except Err (α × ρ)) (h : SInv T D st) :
     SInv T D (withRng st r).1 := by
@@ -266,7 +380,28 @@ theorem good_genVar (st : St ρ) (e : Elem) (h : SInv T D st) : Good T D (ResOK 
   split
   · exact good_error h _
   · refine good_ok ?_ (show ResOK T R ([], none) from evsOK_nil)
-    exact sinv_congr (a := st) (by rw [foldl_setVar_originals]) h
+    exact sinv_foldl_setVar _ _ (sinv_congr (a := st) rfl rfl h)
+
+theorem good_genDefaults (st : St ρ) (kids : Option Nodes) (h : SInv T D st) (hk : KidsT T kids) :
+    Good T D (ResOK T R) (genDefaults st kids) := by
+  unfold genDefaults
+  refine ⟨?_, okP_ok (show ResOK T R ([], none) from evsOK_nil)⟩
+  cases kids with
+  | none => exact h
+  | some ks =>
+    exact sinv_foldl_setElementDefault _ st h (fun e he => cl.storeD e (subElemsNodes_T ks (hk ks rfl) e he))
+
+/-- the element handed to `genElem` by `genNode`: a tree element, with the defaults in force applied if it is a leaf -/
+theorem leafDefaults_D (st : St ρ) (e : Elem) (kids : Option Nodes) (h : SInv T D st) (ht : T e) :
+    D (leafDefaults st e kids) := by
+  unfold leafDefaults
+  split
+  · unfold applyDefaults
+    apply cl.applyD _ _ (cl.tD e ht)
+    intro d hd
+    obtain ⟨s, hs, hds⟩ := mem_defaultsInForce hd
+    exact h.2 s hs d hds
+  · exact cl.tD e ht
 
 omit cl in
 theorem good_commentEvents (st : St ρ) (e : Elem) (h : SInv T D st) :
@@ -426,13 +561,13 @@ theorem good_reusePrepare (st : St ρ) (re : Elem) (h : SInv T D st) (hre : D re
   · exact good_error h _
   · split
     · exact good_error h _
-    · exact good_error (sinv_congr (a := st) rfl h) _
+    · exact good_error (sinv_congr (a := st) rfl rfl h) _
     · rename_i i _
       split
       · exact good_error h _
       · rename_i orig kids hlook
         obtain ⟨k', hmem⟩ := lookupTable_mem' _ _ _ hlook
-        obtain ⟨hdo, hko⟩ := h _ hmem
+        obtain ⟨hdo, hko⟩ := h.1 _ hmem
         dsimp only at hdo hko
         apply good_seq (Q := fun inst1 => ∀ pos,
             (D (Elem.setPositionAttrs pos (reuseInstance re inst1)) ∧
@@ -556,13 +691,13 @@ theorem dispatch_e (st : St ρ) e kids (h : SInv T D st) (hd : D e) (hk : ∀ ks
   split; · exact ih.genLoop st e kids h (kidsT_of hk)
   split
   · split
-    · exact good_ok (sinv_congr (a := st) rfl h) resOK_nil
+    · exact good_ok (sinv_congr (a := st) rfl rfl h) resOK_nil
     · exact good_error h _
   split; · exact ih.genReuse st e h hd
   split; · exact ih.genSpecs st kids h (kidsT_of hk)
   split; · exact good_genVar st e h
   split; · exact ih.genIf st e kids h (kidsT_of hk)
-  split; · exact good_ok (sinv_congr (a := st) rfl h) resOK_nil
+  split; · exact good_genDefaults cl st kids h (kidsT_of hk)
   split; · exact ih.genFor st e kids h (kidsT_of hk)
   split; · exact ih.genGroup st e kids h hd (kidsT_of hk)
   split
@@ -680,15 +815,15 @@ theorem sinv_bindLoopVar (st : St ρ) n v (h : SInv T D st) : SInv T D (bindLoop
   unfold bindLoopVar
   split
   · exact h
-  · exact sinv_congr (setVar_originals _ _ _) h
+  · exact sinv_setVar _ _ _ h
 
 omit cl ih in
 theorem sinv_bindForVars (st : St ρ) v iv item idx (h : SInv T D st) : SInv T D (bindForVars st v iv item idx) := by
   unfold bindForVars
   dsimp only
   split
-  · exact sinv_congr (by rw [setVar_originals, setVar_originals]) h
-  · exact sinv_congr (setVar_originals _ _ _) h
+  · exact sinv_setVar _ _ _ (sinv_setVar _ _ _ h)
+  · exact sinv_setVar _ _ _ h
 
 omit cl in
 theorem loopIter_e (st : St ρ) ks c w u n v s i acc bb (h : SInv T D st) (hk : NodesT T ks) (hacc : EvsOK T R acc) :
@@ -717,7 +852,7 @@ theorem genLoop_e (st : St ρ) e kids (h : SInv T D st) (hk : KidsT T kids) :
   · rename_i ks _
     split
     · exact good_error h _
-    · exact ih.loopIter _ _ _ _ _ _ _ _ _ _ _ (sinv_congr (a := st) rfl h) (hk ks rfl) evsOK_nil
+    · exact ih.loopIter _ _ _ _ _ _ _ _ _ _ _ (sinv_congr (a := st) rfl rfl h) (hk ks rfl) evsOK_nil
   all_goals exact good_ok h resOK_nil
 
 omit cl in
@@ -753,7 +888,12 @@ theorem genNode_e (st : St ρ) n (h : SInv T D st) (hn : NodeT T n) :
       cases kids with
       | none => unfold NodeT at hn; exact ⟨hn, fun ks hks => by cases hks⟩
       | some ks => unfold NodeT at hn; exact ⟨hn.1, fun ks' hks => by cases hks; exact hn⟩
-    apply good_seq _ _ (ih.genElem st e kids h (cl.tD e hte.1) hte.2)
+    have hk' : ∀ ks, kids = some ks → T (leafDefaults st e kids) ∧ NodesT T ks := by
+      intro ks hks
+      have := hte.2 ks hks
+      subst hks
+      exact this
+    apply good_seq _ _ (ih.genElem st (leafDefaults st e kids) kids h (leafDefaults_D cl st e kids h hte.1) hk')
     intro r hs hr
     exact good_ok hs (evsOK_withTail tail _ hr)
   | comment c tail =>
@@ -810,8 +950,8 @@ theorem retry_e (st : St ρ) ts outs bb (h : SInv T D st) (hts : TagsT T ts) (ho
       · split
         · exact good_error hs _
         · split
-          · exact good_error (sinv_congr (a := (Ctl.onePass ev fuel st (t :: ts) outs bb []).1) rfl hs) _
-          · exact ih.retry _ _ _ _ (sinv_congr (a := (Ctl.onePass ev fuel st (t :: ts) outs bb []).1) rfl hs) hr.2 hr.1
+          · exact good_error (sinv_congr (a := (Ctl.onePass ev fuel st (t :: ts) outs bb []).1) rfl rfl hs) _
+          · exact ih.retry _ _ _ _ (sinv_congr (a := (Ctl.onePass ev fuel st (t :: ts) outs bb []).1) rfl rfl hs) hr.2 hr.1
       · exact ih.retry _ _ _ _ hs hr.2 hr.1
 
 omit cl in
